@@ -38,10 +38,13 @@ type Step struct {
 }
 
 type Case struct {
-	Nodes   int     `json:"nodes"`
-	Subs    []SubAt `json:"subs"`
-	Clients int     `json:"clients"`
-	Steps   []Step  `json:"steps"`
+	// IDs: when present, packet identifier k (1..len) of the steps stands for IDs[k-1]: the same
+	// histories on identifiers at the edges of the 16-bit range and of narrower encodings
+	IDs     []uint16 `json:"ids,omitempty"`
+	Nodes   int      `json:"nodes"`
+	Subs    []SubAt  `json:"subs"`
+	Clients int      `json:"clients"`
+	Steps   []Step   `json:"steps"`
 }
 
 type SubAt struct {
@@ -148,6 +151,9 @@ func run(c Case) (f *failure, nontrivial bool) {
 	for si, st := range c.Steps {
 		if st.C >= c.Clients || dead[st.C] {
 			continue
+		}
+		if st.ID >= 1 && int(st.ID) <= len(c.IDs) {
+			st.ID = c.IDs[st.ID-1]
 		}
 		k := pubs[st.C]
 		payload := fmt.Sprintf("payload-%d", si)
@@ -377,6 +383,7 @@ func TestRandom(t *testing.T) {
 		for i := 0; i < ns; i++ {
 			c.Subs = append(c.Subs, SubAt{rapid.IntRange(0, c.Nodes-1).Draw(t, "node"), rapid.SampledFrom(filters).Draw(t, "filter")})
 		}
+		c.IDs = rapid.SampledFrom([][]uint16{nil, nil, nil, {55296, 56319, 65533}, {127, 128, 256}, {32767, 32768, 65535}, {0xD800, 0xDFFF, 0xFFFD}}).Draw(t, "ids")
 		n := rapid.IntRange(2, 14).Draw(t, "steps")
 		for i := 0; i < n; i++ {
 			st := Step{C: rapid.IntRange(0, c.Clients-1).Draw(t, "c"), ID: uint16(rapid.IntRange(1, 3).Draw(t, "id"))}
